@@ -134,14 +134,21 @@ def translate(repo):
 
 
 def run(repo, log=print):
+    import tempfile
+    import shutil
     os.makedirs(os.path.join(ROOT, 'work'), exist_ok=True)
-    p = os.path.join(ROOT, 'work', 'GenTables.v')
     try:
         text = translate(repo)
     except (Untranslatable, SyntaxError, OSError) as e:
         return {'ok': False, 'stage': 'translate', 'detail': str(e)}
-    open(p, 'w').write(text)
-    r = subprocess.run(['coqc', '-Q', os.path.join(COQ, 'theories'), 'Mos', p], capture_output=True, text=True, timeout=300)
+    d = tempfile.mkdtemp(prefix='gen-', dir=os.path.join(ROOT, 'work'))      # private: checks may run in parallel
+    try:
+        p = os.path.join(d, 'GenTables.v')
+        open(p, 'w').write(text)
+        r = subprocess.run(['coqc', '-Q', os.path.join(COQ, 'theories'), 'Mos', p], capture_output=True, text=True, timeout=300)
+        os.replace(p, os.path.join(ROOT, 'work', 'GenTables.v'))                # the last generated file, for inspection
+    finally:
+        shutil.rmtree(d, ignore_errors=True)
     if r.returncode != 0:
         return {'ok': False, 'stage': 'coqc', 'detail': (r.stdout + r.stderr)[-600:]}
     return {'ok': True, 'rows': text.count('Some ') + text.count('None)') + text.count('), EA')}
